@@ -85,3 +85,35 @@ Definition sc_check_tune (c : s_case) : bool :=
 (* complete call structure: which oracle was called with which arguments, in order *)
 Definition sc_check_trace (c : s_case) : bool :=
   let '(sf, _, _) := sc_run c in list_eqb call_eq (map enc_call (rev (trace sf))) (x_trace c).
+
+(* ---- fault injection (C08) ---- *)
+From HV Require Import Faults.
+
+Record f_obs := { fo_site : fsite; fo_kind : fkind; fo_cols : list (list float * float);
+                  fo_outcome : outcome; fo_cp : Z; fo_acc : nat }.
+
+Definition outcome_eqb (a b : outcome) : bool :=
+  match a, b with Returned, Returned => true | Raised x, Raised y => Nat.eqb x y | _, _ => false end.
+
+Definition sc_fault_ok (c : s_case) (o : f_obs) : bool :=
+  let mis := lookup (sc_mis c) nan in
+  let gr := lookup (sc_grad c) [] in
+  let kin := lookup (sc_kin c) nan in
+  let kgr := lookup (sc_kgrad c) [] in
+  let expf := fun x => lookup (sc_exp c) nan [x] in
+  let powf := fun i => nth i (sc_pow c) nan in
+  let genmom := fun z => match sc_massdiag c with
+                         | None => z
+                         | Some dg => map2 PrimFloat.mul (map PrimFloat.sqrt dg) z end in
+  let corr := fun (q p : list float) => (q, p) in
+  let tu := @Build_tuning NumF (sc_tune c) (sc_target c) (sc_min c) in
+  let sm := if sc_hmc c
+            then Hm (@Build_hmc_cfg NumF (the_integ c) (sc_steps c) tu)
+            else Rw (@Build_rwmh_cfg NumF (sc_nsp c) (sc_stepvec c) tu) in
+  let evs := map (fun e => let '(z, f, u) := e in @Build_ev NumF z f u) (sc_evs c) in
+  let r := @run_faulty NumF mis gr corr kin kgr genmom expf powf sm (sc_thin c) (sc_m0 c) (sc_step0 c) evs
+                       (fo_site o) (fo_kind o) in
+  list_eqb col_eq (r_cols r) (fo_cols o) && outcome_eqb (r_outcome r) (fo_outcome o)
+  && Z.eqb (r_cp r) (fo_cp o).
+
+Definition fc_check (cf : s_case * list f_obs) : bool := forallb (sc_fault_ok (fst cf)) (snd cf).
